@@ -30,19 +30,32 @@ def BiClosedIn (G : MG Name) (D H : List Name) : Prop := ∀ v ∈ D, ∀ w ∈ 
 def SameSet (A B : List Name) : Prop := ∀ v, v ∈ A ↔ v ∈ B
 
 /-- **Shape of a `Probability` given as the c-factor of `H`.**  The Lemma-1 branch of the code dispatches on the
-type of the expression and reads only its parents, population tag and intervention subscripts, so a `Probability`
-must be `P_w(H | Z)`: one child per member of `H`, all children and parents plain or carrying the same un-starred
-intervention subscripts `w`, and neither the parents nor the intervened variables are members of `H`.
+type of the expression and reads only its parents, population tag and, for the members of `H`, the child that
+carries their name (with its intervention subscripts), so a `Probability` must be `P_w(H ∪ E | Z)`:
+every member of `H` is a child; any further child `E` is redundant (it is also a parent or an intervened variable:
+`P(T, W | Z)` with `W ⊆ Z` denotes `P(T | Z)`); all children and parents carry the same un-starred
+intervention subscripts `w` (possibly none) and are not starred themselves (`+X`); neither the parents nor the intervened variables are members of `H` (they need not
+even be nodes of the graph).
 Other constructors carry no shape condition. -/
-def ProbShape (nodes : List Name) (q : Expr) (H : List Name) : Prop :=
+def ProbShape (q : Expr) (H : List Name) : Prop :=
   match q with
   | .prob _ children parents =>
       ∃ w : List Iv,
-        (children.map (·.name)).Perm H ∧
-        (∀ v ∈ children ++ parents, v.ivs = w ∧ v.star = none) ∧
-        (∀ i ∈ w, i.star = false ∧ i.name ∉ H ∧ i.name ∈ nodes) ∧
-        (∀ p ∈ parents, p.name ∉ H ∧ p.name ∈ nodes)
+        (∀ h ∈ H, h ∈ children.map (·.name)) ∧
+        (∀ c ∈ children, c.name ∈ H ∨ c.name ∈ parents.map (·.name) ∨ c.name ∈ w.map (·.name)) ∧
+        (∀ v ∈ children ++ parents, v.ivs = w ∧ v.star ≠ some true) ∧
+        (∀ i ∈ w, i.star = false ∧ i.name ∉ H) ∧
+        (∀ p ∈ parents, p.name ∉ H)
   | _ => True
+
+/-- the stricter shape `P_w(H | Z)` (children exactly the members of `H`, once each) implies `ProbShape` -/
+theorem probShape_of_exact (pop : Option Var) (children parents : List Var) (H : List Name)
+    (w : List Iv) (h1 : (children.map (·.name)).Perm H)
+    (h2 : ∀ v ∈ children ++ parents, v.ivs = w ∧ v.star ≠ some true)
+    (h3 : ∀ i ∈ w, i.star = false ∧ i.name ∉ H)
+    (h4 : ∀ p ∈ parents, p.name ∉ H) : ProbShape (.prob pop children parents) H :=
+  ⟨w, fun _ hh => h1.mem_iff.mpr hh,
+    fun c hc => Or.inl (h1.mem_iff.mp (List.mem_map.mpr ⟨c, hc, rfl⟩)), h2, h3, h4⟩
 
 end TianSpec
 end Y0
